@@ -196,7 +196,7 @@ def run_conversions(rep, tier, hs=None):
                 # strip the overflow guard: select(ovf, -1, mul) / umul.with.overflow
                 cnt = None
                 for x in subterms(a):
-                    if x[0] == 'call' and x[1] and x[1].startswith("llvm.umul.with.overflow"):
+                    if x[0] in ('call', 'fn') and x[1] and x[1].startswith("llvm.umul.with.overflow"):
                         cnt = x[3]
                         stride = x[4]
                     elif x[0] == 'op' and x[1] == 'mul' and cnt is None and x[4][0] == 'ci':
